@@ -9,6 +9,8 @@ Vocabulary (Lemmas/):
   `Dispatch c o name isSet r`  the trait the model's lookup dispatches to
   `Inv w`                      no delegate traits + every class dictionary is
                                "declared traits + coherent cache"
+                                 (`NoDeleg w`, which also says that no object has
+                               a `trait_added` listener that adds traits)
   `SafeHist E w ops`           every class definition in `ops` derives from
                                classes whose cache is still empty at that moment
   `GovAt P w oi name`          every trait the lookup of `name` on object `oi`
@@ -85,33 +87,34 @@ default) — and so is every read that reaches the trait lookup, for every name
 that is not of the form `__xxx__`. -/
 theorem C13_order {w : World} (hw : Inv w) {oi : Nat} {o : Obj} {c : Cls}
     (ho : w.objs[oi]? = some o) (hc : w.classes[o.cls]? = some c) (name : Name) :
-    Governs c o name true (resolveSet w o c name).2 ∧
-    (isDunder name = false → Governs c o name false (resolveGet w o c name).2) := by
+    Governs c o name true (resolveSet w oi o c name).2 ∧
+    (isDunder name = false → Governs c o name false (resolveGet w oi o c name).2) := by
   have hci := hw.cls c (List.mem_of_getElem? hc)
   have hcp := hw.nd.cls c (List.mem_of_getElem? hc)
   have hop := hw.nd.obj o (List.mem_of_getElem? ho)
-  exact ⟨(resolveSet_spec w o c name).2.governs hci hcp hop (Or.inl rfl),
-    fun hdu => (resolveGet_spec w o c name).2.governs hci hcp hop (Or.inr hdu)⟩
+  have hh := hw.nd.hooks o (List.mem_of_getElem? ho)
+  exact ⟨(resolveSet_spec w c name hh ho).2.governs hci hcp hop (Or.inl rfl),
+    fun hdu => (resolveGet_spec w c name hh ho).2.governs hci hcp hop (Or.inr hdu)⟩
 
 /-- `resolveGet` is the lookup `getattr` performs (after the `__dict__` and
 type-attribute short cuts), `resolveSet` the one `setattr` / `delattr` perform. -/
 theorem C13_order_is_about_step (E : Env) {w : World} {oi : Nat} {o : Obj} {c : Cls}
     (ho : w.objs[oi]? = some o) (hc : w.classes[o.cls]? = some c) (name : Name) :
     (∀ v, step E w (.set oi name v) =
-      match resolveSet w o c name with
+      match resolveSet w oi o c name with
       | (w', .error e) => (w', .error e)
       | (w', .ok t) =>
         match setattrKind E t o.dict name (some v) with
         | .error e => (w', .error e)
-        | .ok d => (setDict w' oi o d, .ok .done)) ∧
+        | .ok d => (setDict w' oi d, .ok .done)) ∧
     (o.dict.get name = none → E.classAttr name = none →
       step E w (.get oi name) =
-        match resolveGet w o c name with
+        match resolveGet w oi o c name with
         | (w', .error e) => (w', .error e)
         | (w', .ok t) =>
           match getattrKind E t o.dict name with
           | .error e => (w', .error e)
-          | .ok (v, d) => (setDict w' oi o d, .ok (.val v))) := by
+          | .ok (v, d) => (setDict w' oi d, .ok (.val v))) := by
   refine ⟨fun v => ?_, fun hd hca => ?_⟩
   · rw [step_set_eq E ho hc]; rfl
   · rw [step_get_eq E ho hc]; exact getattro_eq_resolveGet E w oi o c name hd hca
@@ -144,8 +147,8 @@ theorem C13_order_history (E : Env) (ops : List Op) (hplain : ∀ op ∈ ops, op
     (hsafe : SafeHist E World.init ops) {oi : Nat} {o : Obj} {c : Cls}
     (ho : (run E World.init ops).1.objs[oi]? = some o)
     (hc : (run E World.init ops).1.classes[o.cls]? = some c) (name : Name) :
-    Governs c o name true (resolveSet (run E World.init ops).1 o c name).2 ∧
-    (isDunder name = false → Governs c o name false (resolveGet (run E World.init ops).1 o c name).2) :=
+    Governs c o name true (resolveSet (run E World.init ops).1 oi o c name).2 ∧
+    (isDunder name = false → Governs c o name false (resolveGet (run E World.init ops).1 oi o c name).2) :=
   C13_order (Inv_run E inv_init hplain hsafe) ho hc name
 
 /-- The full-strength statement (every name, reads included). -/
@@ -166,10 +169,11 @@ trait (value `None`) instead of raising AttributeError. -/
 theorem C13_order_fails_dunder_read_after_write : ¬ C13_order_full := by
   intro h
   have hinv : Inv dunderWorld := by
-    refine ⟨⟨?_, ?_⟩, ?_⟩
+    refine ⟨⟨?_, ?_, ?_⟩, ?_⟩
     · intro c hc; simp [dunderWorld] at hc; subst hc
       exact ⟨by decide, by decide⟩
     · intro o ho; simp [dunderWorld] at ho; subst ho; intro e he; simp at he
+    · intro o ho; simp [dunderWorld] at ho; subst ho; rfl
     · intro c hc; simp [dunderWorld] at hc; subst hc
       refine ⟨by unfold Sorted; decide, ⟨pythonDefault, by decide⟩, ?_, ?_⟩
       · intro n t hn; simp [dunderCls] at hn
@@ -470,14 +474,16 @@ theorem C13_readonly_once (E : Env) {w : World} (hw : NoDeleg w) {oi : Nat} {nam
       · exact Or.inl h
       · exact Or.inr h
     obtain ⟨w', t, hrs, hpt, hres⟩ := resolveSet_ok (w := w) (hw.cls c (List.mem_of_getElem? hc))
-      (hw.obj o (List.mem_of_getElem? ho)) hig hcg htot
+      (hw.obj o (List.mem_of_getElem? ho)) hig hcg htot (hw.hooks o (List.mem_of_getElem? ho)) ho
     rw [step_set_eq E ho hc]
     unfold setattro
     rw [hrs]
     simp only
     rw [setattrKind_readonly_set hpt.1 hpt.2, if_pos hdo]
     refine ⟨rfl, ⟨{ o with dict := o.dict.set name v }, ?_, Map.get_set_same _ _ _⟩⟩
-    simp only [setDict]
+    simp only
+    rw [setDict_eq _ (by rw [hres.objs]; exact ho)]
+    simp only
     rw [hres.objs]
     exact getElem?_set_self' ho
   · intro v hv hd
@@ -702,5 +708,100 @@ example : (run Env.sample World.init
     [.new 0, .set 0 ['x'] (.int 5), .addTrait 0 ['x'] evIntTrait, .get 0 ['x'],
      .addTrait 0 ['x'] disTrait, .get 0 ['x']]).2.drop 3 =
     [.ok (.val (.int 5)), .ok .done, .ok (.val (.int 5))] := by decide
+
+/-! ## Re-entrancy: an instance trait added *during* the resolution governs -/
+
+/-- `get_prefix_trait` fires `trait_added` after caching the wildcard trait and
+then resolves the name **again** (ctraits.c:633-637).  So when a `trait_added`
+listener of the object adds an instance trait for the very name that is being
+resolved for the first time (`hooks = … ++ [(p, t')] ++ rest`, `p` a prefix of
+the name, no later listener matching), that first write is dispatched to the
+new instance trait `t'` — not to the wildcard trait `t` that was just cached —
+the object ends up with `t'` as instance trait of the name, the class
+dictionary with `t`; and `step` hands the value to the setter of `t'`. -/
+theorem C13_reentrant_add_governs (E : Env) {w : World} {oi : Nat} {o : Obj} {c : Cls} {name : Name}
+    {t t' : Trait} {p : Name} {before rest : List (Name × Trait)}
+    (ho : w.objs[oi]? = some o) (hc : w.classes[o.cls]? = some c)
+    (hi : o.itraits.get name = none) (hct : c.ctraits.get name = none)
+    (hp : prefixTrait c o name true = .ok t)
+    (hhooks : o.hooks = before ++ [(p, t')] ++ rest) (hmatch : p <+: name)
+    (hrest : ∀ h ∈ rest, ¬ h.1 <+: name) :
+    (resolveSet w oi o c name).2 = .ok t' ∧
+    (∃ o', (resolveSet w oi o c name).1.objs[oi]? = some o' ∧ o'.itraits.get name = some t' ∧
+        o'.dict = o.dict ∧ o'.cls = o.cls) ∧
+    (∃ c', (resolveSet w oi o c name).1.classes[o.cls]? = some c' ∧ c'.ctraits.get name = some t) ∧
+    ∀ v, (step E w (.set oi name v)).2 = (setattrKind E t' o.dict name (some v)).map (fun _ => Out.done) := by
+  have hfold : ∀ (l : List (Name × Trait)) (x : Obj), (∀ h ∈ l, ¬ h.1 <+: name) →
+      l.foldl (fun o h => if prefixMatches h.1 name then { o with itraits := o.itraits.set name h.2 } else o) x
+        = x := by
+    intro l
+    induction l with
+    | nil => intro x _; rfl
+    | cons h l ih =>
+      intro x hl
+      simp only [List.foldl_cons]
+      have : prefixMatches h.1 name = false := by
+        cases hm : prefixMatches h.1 name with
+        | false => rfl
+        | true => exact absurd (prefixMatches_iff.mp hm) (hl h List.mem_cons_self)
+      simp only [this]
+      exact ih x (fun h' hh' => hl h' (List.mem_cons_of_mem _ hh'))
+  have hinv : ∀ (l : List (Name × Trait)) (x : Obj), x.dict = o.dict → x.cls = o.cls →
+      (l.foldl (fun o h => if prefixMatches h.1 name then { o with itraits := o.itraits.set name h.2 } else o) x).dict
+        = o.dict ∧
+      (l.foldl (fun o h => if prefixMatches h.1 name then { o with itraits := o.itraits.set name h.2 } else o) x).cls
+        = o.cls := by
+    intro l
+    induction l with
+    | nil => intro x hd hcl; exact ⟨hd, hcl⟩
+    | cons h l ih =>
+      intro x hd hcl
+      simp only [List.foldl_cons]
+      split
+      · exact ih _ hd hcl
+      · exact ih _ hd hcl
+  have hfire : (fireTraitAdded o name).itraits.get name = some t' ∧
+      (fireTraitAdded o name).dict = o.dict ∧ (fireTraitAdded o name).cls = o.cls := by
+    unfold fireTraitAdded
+    refine ⟨?_, hinv _ _ rfl rfl⟩
+    rw [hhooks, List.foldl_append, List.foldl_append]
+    simp only [List.foldl_cons, List.foldl_nil, prefixMatches_iff.mpr hmatch, ↓reduceIte]
+    rw [hfold rest _ hrest]
+    exact Map.get_set_same _ _ _
+  have hlen : oi < w.objs.length := by
+    rcases Nat.lt_or_ge oi w.objs.length with h | h
+    · exact h
+    · rw [List.getElem?_eq_none h] at ho; cases ho
+  have hrs : resolveSet w oi o c name =
+      ({ classes := w.classes.set o.cls { c with ctraits := c.ctraits.set name t },
+         objs := w.objs.set oi (fireTraitAdded o name) }, .ok t') := by
+    unfold resolveSet
+    rw [hi, hct]
+    simp only [getPrefixTrait, hp, hfire.1]
+  refine ⟨by rw [hrs], ⟨fireTraitAdded o name, ?_, hfire.1, hfire.2.1, hfire.2.2⟩,
+    ⟨{ c with ctraits := c.ctraits.set name t }, ?_, Map.get_set_same _ _ _⟩, ?_⟩
+  · rw [hrs]; simp [hlen]
+  · rw [hrs]; exact getElem?_set_self' hc
+  · intro v
+    rw [step_set_eq E ho hc]
+    unfold setattro
+    rw [hrs]
+    simp only
+    cases setattrKind E t' o.dict name (some v) <;> rfl
+
+/-- The coordinator's demo in the model: `f_ = Int` on a strict class, a listener
+that gives names starting with `f_s` their own `Str` trait.  The first read
+returns `''` (not `0`), the first write of a string is accepted and an int is
+then refused; a name the listener does not touch follows the wildcard; after
+`remove_trait` the wildcard governs again; a name first resolved by *another*
+instance is cached in the class and the listener never hears of it. -/
+example : (run Env.sample World.init
+    [.mkClass [1] [(['f', '_', '_'], intTrait)], .new 3, .new 3, .hook 0 ['f', '_', 's'] strTrait,
+     .get 0 ['f', '_', 's', '1'], .get 0 ['f', '_', 'n', '1'],
+     .set 0 ['f', '_', 's', '2'] (.str "text"), .set 0 ['f', '_', 's', '2'] (.int 3),
+     .removeTrait 0 ['f', '_', 's', '2'], .get 0 ['f', '_', 's', '2'],
+     .get 1 ['f', '_', 's', '3'], .get 0 ['f', '_', 's', '3']]).2.drop 4 =
+    [.ok (.val (.str "")), .ok (.val (.int 0)), .ok .done, .error .traitError, .ok (.bool true),
+     .ok (.val (.int 0)), .ok (.val (.int 0)), .ok (.val (.int 0))] := by decide
 
 end TraitsVerif.Props.C13
